@@ -755,14 +755,22 @@ def _execute(plan, w, tr):
                     obj.tx_outs.append(TxOut(e["v"], Script(script_commands(spk))))
                 elif k == "locktime":
                     model["locktime"] = e["v"] % 2**32
-                    obj.locktime = Locktime(e["v"] % 2**32)
+                    try:
+                        obj.locktime = Locktime(e["v"] % 2**32)
+                    except Exception as ex:
+                        fail("F2", "legal_field_value_refused_locktime", f"Locktime({e['v'] % 2**32}) raised {type(ex).__name__}: {ex}")
+                        break
                 elif k == "version":
                     model["version"] = e["v"] % 2**32
                     obj.version = e["v"] % 2**32
                 elif k == "sequence":
                     j = e["j"] % len(model["ins"])
                     model["ins"][j]["sequence"] = e["v"] % 2**32
-                    obj.tx_ins[j].sequence = Sequence(e["v"] % 2**32)
+                    try:
+                        obj.tx_ins[j].sequence = Sequence(e["v"] % 2**32)
+                    except Exception as ex:
+                        fail("F2", "legal_field_value_refused_sequence", f"Sequence({e['v'] % 2**32}) raised {type(ex).__name__}: {ex}")
+                        break
                 elif k == "outpoint":
                     j = e["j"] % len(model["ins"])
                     model["ins"][j]["vout"] = e["v"] % 2**32
